@@ -38,11 +38,12 @@ def multi_docs(ctx, rng, quick_cap=350):
     return docs
 
 
-def gen_shapes(ctx, max_blocks, rich):
-    cfg = f"SPECIFICATION Spec\nCONSTANTS MaxBlocks = {max_blocks}\n Rich = {'TRUE' if rich else 'FALSE'}\n"
-    dump = ctx.scratch / f"docgen-{max_blocks}-{int(rich)}.dump"
+def gen_shapes(ctx, max_blocks, rich, mode="blocks"):
+    cfg = (f"SPECIFICATION Spec\nCONSTANTS MaxBlocks = {max_blocks}\n Rich = {'TRUE' if rich else 'FALSE'}\n"
+           f' Mode = "{mode}"\n')
+    dump = ctx.scratch / f"docgen-{mode}-{max_blocks}-{int(rich)}.dump"
     r = run_tlc("DocGen", cfg, scratch=ctx.scratch, dump=dump, heap="8g")
-    ctx.ev.tlc(f"DocGen MaxBlocks={max_blocks} Rich={rich}: document shapes", r)
+    ctx.ev.tlc(f"DocGen Mode={mode} MaxBlocks={max_blocks} Rich={rich}: document shapes", r)
     shapes = sorted((from_tla(s["blocks"]) for s in iter_dump(dump)), key=lambda b: json.dumps(b))
     if len(shapes) != r.distinct:
         raise MachineryError(f"DocGen dump {len(shapes)} != {r.distinct}")
@@ -102,6 +103,18 @@ def validate_with_findings(ctx, spec, traces, finding_dev, describe, where):
                 v.known(fid, describe(t, e), case=None)
 
 
+
+
+def heading_jobs(ctx, rng, sample=400):
+    """Heading-section documents (all sequences of <= 4 (quick: sampled) / 5 headings and paragraphs) for docx / odt."""
+    shapes = gen_shapes(ctx, 5 if ctx.thorough else 4, False, mode="headings")
+    if not ctx.thorough and len(shapes) > sample:
+        small = [s for s in shapes if len(s) <= 3]
+        rest = [s for s in shapes if len(s) > 3]
+        rng.shuffle(rest)
+        shapes = small + rest[: max(0, sample - len(small))]
+    docs = [flow_doc(number_blocks(sh, 1)[0]) for sh in shapes]
+    return [{"doc": d, "fmt": f} for d in docs for f in ("docx", "odt")], len(docs)
 
 
 def build_jobs(ctx, rng, two_block_sample=1200):
